@@ -50,6 +50,48 @@ func scalarArg(c PCase, i int) (float64, bool) {
 	}
 	return 0, false
 }
+func nonNull(e ESpec) bool {
+	if !e.P {
+		return false
+	}
+	if float64(e.V) != 0 {
+		return true
+	}
+	if e.O >= 1 {
+		for _, d := range e.D {
+			if float64(d) != 0 {
+				return true
+			}
+		}
+	}
+	if e.O >= 2 {
+		for _, row := range e.H {
+			for _, h := range row {
+				if float64(h) != 0 {
+					return true
+				}
+			}
+		}
+	}
+	return false
+}
+
+// supportsDiffer: receiver and first operand (two sparse vectors) hold a non-null entry at different positions
+func supportsDiffer(c PCase) bool {
+	if len(c.Args) == 0 || c.Alias[0] == 0 {
+		return false
+	}
+	a, b := c.Recv, c.Args[0]
+	if len(a.E) != len(b.E) {
+		return false
+	}
+	for i := range a.E {
+		if nonNull(a.E[i]) != nonNull(b.E[i]) {
+			return true
+		}
+	}
+	return false
+}
 func in(s string, l ...string) bool {
 	for _, x := range l {
 		if s == x {
@@ -72,7 +114,9 @@ func classify(c PCase, g, k Result, class int) string {
 			return "F-C09-SQRT-BARE"
 		}
 	case site == "svec.Equals/EQUALS":
-		if !g.Panic && !k.Panic && toksString(g.Ret) == "true" && toksString(k.Ret) == "false" {
+		// EQUALS returns false at the first position stored (non-null) in only one of the two vectors; Equals
+		// goes on (and its iterators go on removing stored zeros): different answer or different skip() effects
+		if !g.Panic && !k.Panic && toksString(k.Ret) == "false" && supportsDiffer(c) {
 			return "F-C09-EQUALS-SPARSE"
 		}
 	case site == "svec.VdivS/VDIVS":
